@@ -51,6 +51,10 @@ func runSeqHist(a *args) {
 				bad = o == nil || !eqs(project(o, ord20), w.Obj)
 			}
 			col.count("calls after a history compared with the single-call result", 1)
+			if bad && !contextDependent20(s, outcome20(o, err, p)) {
+				col.count("deviations from the specification that do not depend on the history (left to C01 / C06)", 1)
+				bad = false
+			}
 			if bad {
 				var gotObj []string
 				if o != nil {
